@@ -68,6 +68,9 @@ class FakeCondition:
     def notify_all(self):
         self.notified += 1
 
+    def notify(self, n=1):
+        self.notified += 1
+
 
 class RawError:
     def __init__(self, value):
